@@ -6,7 +6,8 @@ from contracts.axioms import POW
 
 P = "jellyfysh.potential."
 IPGEN = "def gen(rng):\n    from jellyfysh.potential.inverse_power_potential import InversePowerPotential\n    return {'self': InversePowerPotential(power=rng.choice([1.0, 2.0, 3.0, 6.0, 12.0]), prefactor=rng.choice([1.0, -2.0, 0.5, 3.0])),\n            'separation': [rng.choice([0.3, -0.7, 1.1, 0.0, -0.2]) for _ in range(3)], 'direction': rng.randrange(3), 'dirn': rng.randrange(3)}\n"
-cls("Potential", _prefactor="float")
+cls("Potential", _prefactor="float", _number_separation_arguments="any", _number_charge_arguments="any",
+    _potential_change_required="any")
 cls("InversePowerPotential", _power="float", _two_over_power="float", _power_over_two="float", _power_plus_two="float",
     _infinity="float", _prefactor="float")
 cls("DisplacedEvenPowerPotential", _equilibrium_separation="float", _equilibrium_separation_squared="float", _power="int",
@@ -119,3 +120,49 @@ contract(CB + "potential", ["C03", "C02"], model="R", axioms=POW2,
          requires=["sx * sx + sy * sy + sz * sz > 0"],
          ensures=["result == prefactor_product / sqrt(sx * sx + sy * sy + sz * sz)"],
          canary="result == 0")
+
+
+# ---- constructors: the object invariants the contracts above take as preconditions are ESTABLISHED here
+contract(P + "abstracts:StandardVelocityInvertiblePotential.__init__", ["C03", "C02"], model="R", assume_only=True,
+         params={"kwargs": "any"}, allocates=False,
+         modifies=["self._prefactor", "self._number_separation_arguments", "self._number_charge_arguments",
+                   "self._potential_change_required"],
+         ensures=["self._prefactor == kwargs['prefactor']"],
+         note="interface: the cooperative **kwargs chain up to Potential.__init__ stores the prefactor; the rest is "
+              "signature introspection (inspect)")
+contract(P + "inverse_power_potential:InversePowerPotential.__init__", ["C03", "C02"], model="R",
+         params={"power": "float", "prefactor": "float"},
+         raises={"ConfigurationError": "not (power > 0)"},
+         modifies=["self._prefactor", "self._number_separation_arguments", "self._number_charge_arguments",
+                   "self._potential_change_required", "self._power", "self._two_over_power", "self._power_over_two",
+                   "self._power_plus_two", "self._infinity"],
+         ensures=["ip_ok(self)", "self._power == power", "self._prefactor == prefactor"],
+         canary="self._power == 1", native_search=False,
+         note="establishes ip_ok for EVERY positive power (integer or not)")
+
+contract(P + "displaced_even_power_potential:DisplacedEvenPowerPotential.__init__", ["C03", "C02"], model="R",
+         params={"equilibrium_separation": "float", "power": "int", "prefactor": "float"},
+         raises={"ConfigurationError": "not (prefactor > 0) or not (equilibrium_separation > 0) or not (power > 0 and power % 2 == 0)"},
+         modifies=["self._prefactor", "self._number_separation_arguments", "self._number_charge_arguments",
+                   "self._potential_change_required", "self._power", "self._inverse_power", "self._equilibrium_separation",
+                   "self._equilibrium_separation_squared"],
+         ensures=["self._power == power and self._power > 0 and self._power % 2 == 0", "self._inverse_power == 1 / power",
+                  "self._prefactor == prefactor and self._prefactor > 0",
+                  "self._equilibrium_separation == equilibrium_separation and self._equilibrium_separation > 0",
+                  "self._equilibrium_separation_squared == equilibrium_separation * equilibrium_separation"],
+         canary="self._power == 2", native_search=False,
+         note="establishes the object invariant the derivative / displacement contracts assume")
+contract(P + "lennard_jones_potential:LennardJonesPotential.__init__", ["C03", "C02"], model="R", axioms=POW,
+         params={"prefactor": "float", "characteristic_length": "float"},
+         raises={"ConfigurationError": "not (prefactor > 0) or not (characteristic_length * pow(2, 1 / 6) > 0)"},
+         modifies=["self._prefactor", "self._number_separation_arguments", "self._number_charge_arguments",
+                   "self._potential_change_required", "self._six_power_potential", "self._twelve_power_potential",
+                   "self._characteristic_length", "self._equilibrium_separation", "self._equilibrium_separation_squared"],
+         ensures=["ip_ok(self._six_power_potential) and ip_ok(self._twelve_power_potential)",
+                  "self._six_power_potential._power == 6 and self._twelve_power_potential._power == 12",
+                  "self._six_power_potential._prefactor == -prefactor * pow(characteristic_length, 6)",
+                  "self._twelve_power_potential._prefactor == prefactor * pow(characteristic_length, 12)",
+                  "self._characteristic_length == characteristic_length and self._prefactor == prefactor",
+                  "fresh(self._six_power_potential) and fresh(self._twelve_power_potential)"],
+         canary="self._characteristic_length == 1", native_search=False,
+         note="the two inverse-power parts carry -k sigma^6 and +k sigma^12")
